@@ -68,6 +68,16 @@ fn main() {
         Some("vmrun") => {
             std::process::exit(c06::vmrun_main(args.get(2).expect("case file")));
         }
+        Some("metacalls") => {
+            // diagnostic: combinator calls of the meta parser per text (used to size C09's call bound)
+            for f in &args[2..] {
+                if let Ok(t) = std::fs::read_to_string(f) {
+                    pest::verif::reset_calls();
+                    let ok = pest_meta::parser::parse(pest_meta::parser::Rule::grammar_rules, &t).is_ok();
+                    println!("{} {} {} {}", t.len(), pest::verif::calls(), ok, f);
+                }
+            }
+        }
         Some("list") => {
             for d in &defs {
                 println!("{}", d.id);
